@@ -4,7 +4,7 @@
 //
 //	spec   := entry { ";" entry }
 //	entry  := point "=" chain
-//	chain  := step { "->" step }
+//	chain  := [ "unless(" point ">" point "):" ] step { "->" step }
 //	step   := [ count "*" ] [ prob "%" ] action { "+" action }
 //	action := "off" | "sleep(" ms ")" | "crash" | "exit" | "panic" | "print"
 //
@@ -14,6 +14,10 @@
 // hit, "sleep(100)+crash" sleeps first (so that concurrent goroutines can run
 // into the window) and then kills, "30%sleep(50)" sleeps at 30 % of the hits
 // (seeded PRNG). When the chain is exhausted the point is off.
+//
+// A chain guarded by "unless(a>b):" ignores the hits at which the last hit of
+// point a is newer than the last hit of point b (e.g. "this Ready published
+// committed entries": unless(node.raft.afterPublish>node.raft.beforeAdvance)).
 //
 // Every hit of every point is counted, whether or not a program is attached,
 // so that a dry run can report how often each point is reached.
@@ -52,6 +56,9 @@ type program struct {
 	steps []step
 	pos   int
 	used  int64
+	// guard "unless(a>b):" - a hit is ignored (not counted by the chain, no
+	// action) when the last hit of point a is newer than the last hit of point b
+	guardA, guardB string
 }
 
 // Registry holds the programs and hit counters of one process.
@@ -134,6 +141,28 @@ func ParseChain(src string) ([]step, error) {
 	return steps, nil
 }
 
+func parseProgram(chain string) (*program, error) {
+	p := &program{src: chain}
+	if strings.HasPrefix(chain, "unless(") {
+		i := strings.Index(chain, "):")
+		if i < 0 {
+			return nil, fmt.Errorf("bad guard in %q", chain)
+		}
+		ab := strings.Split(chain[len("unless("):i], ">")
+		if len(ab) != 2 {
+			return nil, fmt.Errorf("bad guard in %q", chain)
+		}
+		p.guardA, p.guardB = strings.TrimSpace(ab[0]), strings.TrimSpace(ab[1])
+		chain = chain[i+2:]
+	}
+	steps, err := ParseChain(chain)
+	if err != nil {
+		return nil, err
+	}
+	p.steps = steps
+	return p, nil
+}
+
 // ParseSpec parses "a=chain;b=chain".
 func ParseSpec(spec string) (map[string]*program, error) {
 	out := map[string]*program{}
@@ -147,11 +176,11 @@ func ParseSpec(spec string) (map[string]*program, error) {
 			return nil, fmt.Errorf("bad failpoint entry %q", ent)
 		}
 		name, chain := strings.TrimSpace(ent[:i]), strings.TrimSpace(ent[i+1:])
-		steps, err := ParseChain(chain)
+		pr, err := parseProgram(chain)
 		if err != nil {
 			return nil, fmt.Errorf("%s: %v", name, err)
 		}
-		out[name] = &program{src: chain, steps: steps}
+		out[name] = pr
 	}
 	return out, nil
 }
@@ -176,12 +205,12 @@ func (r *Registry) SetPoint(name, chain string) error {
 		r.mu.Unlock()
 		return nil
 	}
-	steps, err := ParseChain(chain)
+	pr, err := parseProgram(chain)
 	if err != nil {
 		return err
 	}
 	r.mu.Lock()
-	r.progs[name] = &program{src: chain, steps: steps}
+	r.progs[name] = pr
 	r.mu.Unlock()
 	return nil
 }
@@ -238,7 +267,7 @@ func (r *Registry) Handle(name string) {
 		}
 	}
 	var acts []action
-	if p := r.progs[name]; p != nil {
+	if p := r.progs[name]; p != nil && !(p.guardA != "" && r.lastSeq[p.guardA] > r.lastSeq[p.guardB]) {
 		for p.pos < len(p.steps) && p.steps[p.pos].count >= 0 && p.used >= p.steps[p.pos].count {
 			p.pos++
 			p.used = 0
